@@ -1638,14 +1638,20 @@ class AstEval:
 
     async def ast_compare(self, arg):
         """Evaluate comparison operators by calling function based on class."""
-        left = arg.left
+        #
+        # each operand is evaluated at most once (a < b() < c evaluates b() once); the
+        # already-evaluated left operand is passed on as a constant node
+        #
+        left = ast.Constant(value=await self.aeval(arg.left))
+        val = True
         for cmp_op, right in zip(arg.ops, arg.comparators):
             name = "ast_cmpop_" + cmp_op.__class__.__name__.lower()
+            right = ast.Constant(value=await self.aeval(right))
             val = await getattr(self, name, self.ast_not_implemented)(left, right)
             if not val:
-                return False
+                return val
             left = right
-        return True
+        return val
 
     async def ast_cmpop_eq(self, arg0, arg1):
         """Evaluate comparison operator: ==."""
